@@ -67,6 +67,12 @@ fn nt_c15(r: &RunOut) -> bool {
     r.plan.tags.len() >= 2 || ix.eps.iter().any(|e| matches!(e.pkt, crate::refcodec::Pkt::Disconnect(_)))
 }
 
+fn nt_c17(r: &RunOut) -> bool {
+    let ix = Ix::new(r);
+    ix.gates.iter().any(|g| matches!(&g.desc, crate::world::GateDesc::Publish(p) if p.alias.is_some()))
+        && ix.sent.iter().any(|s| matches!(&s.pkt, Some(crate::refcodec::Pkt::Publish(p)) if p.topic.is_empty() && s.delivered.is_some()))
+}
+
 fn nt_c14(r: &RunOut) -> bool {
     crate::oracle::probe_c14(&Ix::new(r))
 }
@@ -194,10 +200,20 @@ pub fn spec(id: &str) -> Option<PropSpec> {
             nontrivial: nt_any,
             assumptions: base,
         },
+        "C17" => PropSpec {
+            id: "C17",
+            level: "exploration",
+            families: vec![(Family::C17, 100)],
+            quick_runs: 24_000,
+            thorough_runs: 2_000_000,
+            rule: "MQTT 5 roles. One run = per connection 2..9 publishes over the topics {a, b/1, t/5, x/y, b/2} and aliases 1..max (Topic Alias Maximum 1..3): bind, rebind to a different topic, use by alias only, plain publish, and in a third of the scripts one publish whose alias was never bound or exceeds the maximum; two concurrent connections with independent scripts in the server role (one in the client role: the harness drives a single client), with and without the topic router (resources a, b/{x}, t/{id}), gated handlers, random fragmentation. Reference model: one alias table per connection; oracle: the k-th valid publish of a connection reaches the k-th handler invocation of that connection with the model's topic, the route the resolved topic selects, and its own payload; an invalid alias never reaches a handler and ends the connection with a protocol error; distinct = distinct abstract history signature; non-trivial = an alias was used without a topic after having been bound",
+            nontrivial: nt_c17,
+            assumptions: base,
+        },
         _ => {
             return None;
         }
     })
 }
 
-pub const ALL: [&str; 12] = ["C03", "C04", "C05", "C06", "C07", "C08", "C11", "C12", "C13", "C14", "C15", "C16"];
+pub const ALL: [&str; 13] = ["C03", "C04", "C05", "C06", "C07", "C08", "C11", "C12", "C13", "C14", "C15", "C16", "C17"];
